@@ -2,44 +2,14 @@
 from props.common import *
 from symx.driver import run_check
 
-M, F = "harness.pipeline", "c01"
-
 
 def jobs(tier):
-    if tier == "thorough":
-        strata = [
-            dict(name="S-shape/atoms", ns=[1, 2, 3, 4, 5], pin={4: 3, 5: 7}, params=dict(K_m=3, K_r=2, relist="atoms")),
-            dict(name="S-shape/bonds", ns=[2, 3, 4, 5], pin={4: 2, 5: 6}, params=dict(K_m=2, K_r=1, relist="bonds")),
-            dict(name="S-elem4/atoms", ns=[2, 3, 4], pin={3: 1, 4: 5}, params=dict(alphabet=SIGMA_T4, K_m=2, K_r=1, relist="atoms")),
-            dict(name="S-elem6/atoms", ns=[2, 3], pin={3: 3}, params=dict(alphabet=SIGMA_Q, K_m=2, K_r=1, relist="atoms")),
-        ]
-        js = shape_strata(M, F, tier, thorough=strata, max_seconds=3000)
-        km = 3
-    else:
-        strata = [
-            dict(name="S-shape/atoms", ns=[1, 2, 3, 4], pin={4: 3}, params=dict(K_m=2, K_r=1, relist="atoms")),
-            dict(name="S-shape/bonds", ns=[2, 3, 4], pin={4: 2}, params=dict(K_m=1, K_r=1, relist="bonds")),
-            dict(name="S-elem/atoms", ns=[2, 3], pin={3: 3}, params=dict(alphabet=SIGMA_Q, K_m=1, K_r=1, relist="atoms")),
-        ]
-        js = shape_strata(M, F, tier, quick=strata, max_seconds=240)
-        km = 2
-    for name, (n, bonds) in CURATED.items():
-        if tier != "thorough" and n > 8:
-            continue
-        js.append(job(M, F, f"S-curated/{name}", dict(n=n, bonds=[list(b) for b in bonds], K_m=km if n <= 8 else 2, K_r=1 if tier == "thorough" and n <= 6 else 0, relist="atoms"),
-                      max_seconds=3000 if tier == "thorough" else 240))
-    return js
+    return pipeline_jobs("c01", tier)
 
 
 def main(tier):
-    js = jobs(tier)
     return run_check(
-        "C01", tier, js,
-        bounds={"atoms": "n <= 5 all labelled graphs (thorough) / n <= 4 (quick); curated skeletons up to 10 atoms",
-                "labels": "at most K_m mass and K_r radical labels at solver-chosen atoms, values symbolic (>= 1, unbounded)",
-                "relistings": "one adjacent transposition of the atom listing (generators of S_n; closed strata), bond listing reversed/rotated, bond orientation none/all/one flipped",
-                "alphabets": {"S-shape": ["C"], "S-elem": SIGMA_Q if tier != "thorough" else [SIGMA_T4, SIGMA_Q]}},
+        "C01", tier, jobs(tier), bounds=std_bounds(tier),
         assumptions=STD_ASSUME + ["invariance under every adjacent transposition for every member of a stratum closed under relabelling implies invariance under all n! relabelings inside the stratum"],
-        outside=["n > 5 beyond the curated skeletons", "bond-listing permutations other than the listed generators", "the molfile readers (covered at reader level by C06/C07/C08)"],
-        explanation="DSE of graph_from_molecule->canonicalize_molecule->serialize_molecule on two listings of one abstract molecule; obligation: the two emitted strings are equal for all label values on the path",
-    )
+        outside=["n > 5 beyond the curated skeletons", "bond-listing permutations other than the listed generators", "the molfile readers (reader-level relistings are part of C06/C07/C08)"],
+        explanation="DSE of graph_from_molecule->canonicalize_molecule->serialize_molecule on two listings of one abstract molecule; obligation: the two emitted strings are equal for all label values on the path")
